@@ -934,3 +934,36 @@ func (p *program) promote(prob float64) {
 	}
 	p.Inits = keep
 }
+
+// demoteAll turns every value the caller would supply into an initializer: inputs keep their
+// declaration (and thereby get a default) or lose it (a plain weight), overrides of defaults are
+// written into the default. The program then needs no input at all.
+func (p *program) demoteAll() {
+	var keep []mon.GInput
+	for _, in := range p.Inputs {
+		t, fed := p.Feed[in.Name]
+		if !fed {
+			keep = append(keep, in)
+			continue
+		}
+		if p.Shadow[in.Name] { // an overridden default: the override becomes the default
+			for i := range p.Inits {
+				if p.Inits[i].Name == in.Name {
+					p.Inits[i].T = t
+				}
+			}
+			if !in.NoShape && !in.NoType {
+				in.Dims = mon.FixedDims(t.Shape)
+			}
+			keep = append(keep, in)
+		} else {
+			p.Inits = append(p.Inits, mon.GInit{Name: in.Name, T: t, Raw: p.r.Bool()})
+			if p.r.Bool() {
+				p.Shadow[in.Name] = true
+				keep = append(keep, in)
+			}
+		}
+		delete(p.Feed, in.Name)
+	}
+	p.Inputs = keep
+}
